@@ -59,6 +59,8 @@ func main() {
 		os.Exit(cmdCheck(os.Args[1], os.Args[2:]))
 	case "dump":
 		os.Exit(cmdDump(os.Args[2:]))
+	case "frames":
+		os.Exit(cmdFrames(os.Args[2:]))
 	default:
 		fmt.Fprintln(os.Stderr, "unknown command", os.Args[1])
 		os.Exit(2)
